@@ -355,8 +355,10 @@ func (g *gen) shift(cls string, d int) *exprT {
 	switch x := r.Intn(12); {
 	case x < 6:
 		cnt = lit("int", fmt.Sprint(r.Intn(70)))
-	case x < 8:
+	case x < 7:
 		cnt = lit("int", fmt.Sprint(r.Intn(210)))
+	case x < 8:
+		cnt = lit("int", fmt.Sprint(200+r.Intn(1000)))
 	case x < 9:
 		cnt = conv([]string{"uint", "uint8", "int", "uint64"}[r.Intn(4)], lit("int", fmt.Sprint(r.Intn(66))))
 	case x < 10:
